@@ -638,8 +638,12 @@ static void op_explicit_delete(vh_rng* r) {
     int boxed_target = N[x].kind == NK_BOX ? N[x].f[0] : -1;
     rs_dead(p);
     if (boxed_target >= 0) { rs_dead(N[boxed_target].ptr); }
+    /* a quarter of the deletions happen inside a stop..start window: the object must leave the registry all the same */
+    int stopped = vh_chance(r, 25);
+    if (stopped) { stop(gc); }
     del(p);
-    vh_op("del(n%d)", x);
+    if (stopped) { start(gc); vh_count("explicit_deletions_while_stopped"); }
+    vh_op(stopped ? "stop; del(n%d); start" : "del(n%d)", x);
     vh_count("explicit_deletions");
     if (check_c17) {
       vh_eval();
